@@ -148,8 +148,8 @@ def reference_length(rows):
 def gen_len(ctx):
     rng = ctx.rng
     out = []
-    for n in list(range(1, 13)) * (1 if ctx.quick() else 4):
-        dim = rng.choice([2, 3])
+    for n in list(range(1, 13)) * (10 if ctx.quick() else 60):
+        dim = rng.choice([2, 2, 3])
         rows = [[F(rng.randint(-40, 40), 8) for _ in range(n + 1)] for _ in range(dim)]
         if all(len(set(r)) == 1 for r in rows):
             continue
